@@ -4,19 +4,12 @@
    [fuel] = number of rounds, so every statement holds at whichever round the float
    implementation leaves the loop. *)
 From Coq Require Import QArith ZArith List Permutation.
-From V Require Import C12.Model C12.Lemmas C12.Termination.
+From V Require Import C12.Model C12.Lemmas C12.Termination C12.Top C12.Laws C12.LawsSound.
 Import ListNotations.
 Open Scope Q_scope.
 
-(* realCapability = min(capability, (total (-) totalGuarantee) + guarantee) per dimension;
-   a missing capability dimension (or cpu/memory <= 0) does not bound *)
-Theorem C12_realcap_def : forall total tg g cap i,
-  cnth (real_cap total tg g cap) i =
-  let rc := cadd (cinc i (cnth total i) (cnth tg i)) (cnth g i) in
-  match cap with None => rc | Some c => cmin_inf rc (cnth (cap_norm c) i) end.
-Proof. exact realcap_def. Qed.
-Print Assumptions C12_realcap_def.
-
+(* realCapability: value on present, non-negative operands (the cell-wise unfolding of the
+   definition, realcap_def, is a lemma of C12/Lemmas.v and no longer counted here) *)
 Theorem C12_realcap_value : forall total tg g c i t s x y,
   cnth total i = Some t -> cnth tg i = Some s -> cnth g i = Some x ->
   cnth (cap_norm c) i = Some y -> 0 <= t -> 0 <= s ->
@@ -73,7 +66,10 @@ Theorem C12_loop_order_independent : forall fuel D rem qs qs' k,
 Proof. exact loop_order_independent. Qed.
 Print Assumptions C12_loop_order_independent.
 
-(* larger weight, equal demand: not less after a round in which both take part *)
+(* STEP LEMMA, not the clause: larger weight, equal demand: not less after ONE round in which
+   both queues take part, given the same order before it.  It does not compose over the loop
+   (the heavier twin can be declared satisfied first); the clause itself is refuted below and
+   the tolerant version over the whole loop is not proved (law 104 only). *)
 Theorem C12_weight_monotone_round : forall rem W q1 q2,
   q_rcap q1 = q_rcap q2 -> q_req q1 = q_req q2 -> q_gua q1 = q_gua q2 ->
   q_meet q1 = false -> q_meet q2 = false ->
@@ -182,6 +178,143 @@ Theorem C12_loop_pointwise : forall fuel D rem qs qs' k,
   out_qs (loop fuel D rem qs' k) = map (loopF fuel D rem qs) qs'.
 Proof. exact loop_pointwise. Qed.
 Print Assumptions C12_loop_pointwise.
+
+(* ---------- the model's own entry point on every well-formed session (audit W1) ---------- *)
+Theorem C12_attrs_wf : forall total ss,
+  vnonneg total -> Forall spec_ok ss -> Forall init_ok (attrs total ss).
+Proof. exact attrs_wf. Qed.
+Print Assumptions C12_attrs_wf.
+
+(* clauses 1-4 for [proportion]: upper bounds, guarantee (fuel >= 1), sum, remaining in [0,total] *)
+Theorem C12_proportion_correct : forall total ss fuel D,
+  vnonneg total -> Forall spec_ok ss ->
+  let o := proportion fuel D total ss in
+  Forall upper_ok (out_qs o)
+  /\ ((1 <= fuel)%nat -> Forall lower_ok (out_qs o))
+  /\ (forall i, qsumf (dv i) (out_qs o) <= val0 (cnth total i) + qsumf (gv i) (attrs total ss))
+  /\ (forall i, 0 <= val0 (cnth (out_rem o) i) <= val0 (cnth total i)).
+Proof. exact proportion_correct. Qed.
+Print Assumptions C12_proportion_correct.
+
+(* audit W3: realCapability reserves the guarantees of ALL other queues of the session *)
+Theorem C12_realcap_reserves_others : forall total ss s i,
+  vnonneg total -> Forall spec_ok ss -> In s ss ->
+  let q := attr_of total (total_guarantee ss) s in
+  let S := qsumf (fun s' => val0 (cnth (s_gua s') i)) ss in
+  let g := val0 (cnth (s_gua s) i) in
+  val0 (cnth (q_rcap q) i) <= qmax 0 (val0 (cnth total i) - S) + g
+  /\ val0 (cnth (q_rcap q) i) <= qmax g (val0 (cnth total i) - (S - g)).
+Proof. exact realcap_reserves_others. Qed.
+Print Assumptions C12_realcap_reserves_others.
+
+(* audit W2: the literal clause "deserved <= capability" is false when guarantee > capability ... *)
+Theorem C12_deserved_le_capability_refuted :
+  exists total ss fuel D q c,
+    vnonneg total /\ Forall spec_ok ss /\
+    In q (out_qs (proportion fuel D total ss)) /\
+    cnth (q_rcap q) 0 = Some c /\ c < val0 (cnth (q_des q) 0).
+Proof. exact deserved_le_capability_refuted. Qed.
+Print Assumptions C12_deserved_le_capability_refuted.
+
+(* ... and true under the admission webhook's guard guarantee <= capability *)
+Theorem C12_proportion_deserved_le_realcap : forall total ss fuel D,
+  vnonneg total -> Forall spec_ok ss -> Forall gua_le_cap ss ->
+  Forall (fun q => forall i c, cnth (q_rcap q) i = Some c -> val0 (cnth (q_des q) i) <= c)
+         (out_qs (proportion fuel D total ss)).
+Proof. exact proportion_deserved_le_realcap. Qed.
+Print Assumptions C12_proportion_deserved_le_realcap.
+
+Theorem C12_realcap_le_capability : forall total tg g c i y,
+  vnonneg total -> vnonneg tg -> vnonneg g -> vnonneg c ->
+  cnth (cap_norm c) i = Some y ->
+  val0 (cnth (real_cap total tg g (Some c)) i) <= y.
+Proof. exact realcap_le_capability. Qed.
+Print Assumptions C12_realcap_le_capability.
+
+(* audit W5: the capacity plugin's clamp (flat queues) *)
+Theorem C12_capacity_des_bounds : forall total tg s i,
+  let rc := fst (capacity_des total tg s) in
+  let d := snd (capacity_des total tg s) in
+  val0 (cnth (base_some (s_gua s)) i) <= val0 (cnth d i)
+  /\ (forall c, cnth rc i = Some c -> 0 <= c ->
+                val0 (cnth d i) <= qmax (val0 (cnth (base_some (s_gua s)) i)) c)
+  /\ rc = q_rcap (attr_of total tg s).
+Proof. exact capacity_des_bounds. Qed.
+Print Assumptions C12_capacity_des_bounds.
+
+(* audit W9: a different iteration order in every round *)
+Theorem C12_loop_any_order_per_round : forall sh,
+  (forall n l, Permutation l (sh n l)) ->
+  forall fuel D rem qs qs' k, Permutation qs qs' ->
+    Permutation (out_qs (loop fuel D rem qs k)) (out_qs (loopR sh fuel D rem qs' k))
+    /\ out_rem (loop fuel D rem qs k) = out_rem (loopR sh fuel D rem qs' k)
+    /\ is_out_of_fuel (loop fuel D rem qs k) = is_out_of_fuel (loopR sh fuel D rem qs' k).
+Proof. exact loop_any_order_per_round. Qed.
+Print Assumptions C12_loop_any_order_per_round.
+
+(* float64 is not the exact model: binary64 addition is not associative, so the map-order
+   accumulation of the real plugin is order dependent (known finding C12/map-order-dependent-deserved) *)
+Theorem C12_float_sum_order_dependent_refuted :
+  exists a b c : SpecFloat.spec_float,
+    SpecFloat.SFeqb (f64add (f64add a b) c) (f64add a (f64add b c)) = false.
+Proof. exact float_sum_order_dependent_refuted. Qed.
+Print Assumptions C12_float_sum_order_dependent_refuted.
+
+(* ---------- what the boolean laws mean (audit W11) ---------- *)
+Theorem C12_law_bounds_iff : forall D os,
+  weights_pos os = true -> (law_bounds D os = true <-> Forall (bounds_prop D) os).
+Proof. exact law_bounds_iff. Qed.
+Print Assumptions C12_law_bounds_iff.
+
+Theorem C12_law_sum_iff : forall D total os,
+  weights_pos os = true ->
+  (law_sum D total os = true <->
+   forall j, (j < D)%nat ->
+     qsum (map (fun o => val0 (cnth (o_des o) j)) os)
+     <= val0 (cnth total j) + qsum (map (fun o => val0 (cnth (o_gua o) j)) os) + slack).
+Proof. exact law_sum_iff. Qed.
+Print Assumptions C12_law_sum_iff.
+
+Theorem C12_law_reserve_sound : forall D total tg os,
+  law_reserve false D total tg os = true ->
+  Forall (fun o => forall j c, (j < D)%nat -> cnth (o_rcap o) j = Some c ->
+            c <= qmax 0 (val0 (cnth total j) - val0 (cnth tg j)) + val0 (cnth (o_gua o) j) + slack) os.
+Proof. exact law_reserve_sound. Qed.
+Print Assumptions C12_law_reserve_sound.
+
+Theorem C12_law_overused_sound : forall D o,
+  law_overused_q D o = true -> near_boundary D o = false -> (o_over o = true <-> overused_prop o).
+Proof. exact law_overused_q_sound. Qed.
+Print Assumptions C12_law_overused_sound.
+
+Theorem C12_law_weight_sound : forall D os,
+  law_weight D os = true -> weights_pos os = true ->
+  forall a b, In a os -> In b os -> same_demand a b = true -> (o_w a <= o_w b)%Z ->
+  forall j, (j < D)%nat -> val0 (cnth (o_des a) j) <= val0 (cnth (o_des b) j) + eps + slack.
+Proof. exact law_weight_sound. Qed.
+Print Assumptions C12_law_weight_sound.
+
+Theorem C12_law_rounds_iff : forall D big r ws,
+  law_rounds D big r ws = true <->
+  (exists w, In w ws /\ (w <= 0)%Z) \/ (r <= rounds_bound D big ws)%Z.
+Proof. exact law_rounds_iff. Qed.
+Print Assumptions C12_law_rounds_iff.
+
+Theorem C12_law_bounds_accepts_model : forall D q,
+  upper_ok q -> lower_ok q -> law_bounds_q D (obs_of q) = true.
+Proof. exact law_bounds_q_accepts_model. Qed.
+Print Assumptions C12_law_bounds_accepts_model.
+
+(* non-vacuity on a session where guarantee, capability and demand interact (audit W8) *)
+Example C12_example_session_ok : vnonneg ex_total /\ Forall spec_ok ex_specs.
+Proof. exact ex_ok. Qed.
+Example C12_example_session_result :
+  match proportion 10 4 ex_total ex_specs with
+  | Done [q1; q2] _ n =>
+      cnth (q_des q1) 0 = Some 6000 /\ cnth (q_des q2) 0 = Some 4000 /\ (1 <= n)%nat
+  | _ => False
+  end.
+Proof. exact ex_result. Qed.
 
 (* non-vacuity: the witness queues satisfy the hypotheses of the bound theorems *)
 Example C12_hypotheses_satisfiable : Forall upper_ok wit_qs.
